@@ -4,6 +4,7 @@ import PyTrie.Model.HexDb
 import PyTrie.Model.Iter
 import PyTrie.Model.HexRaw
 import PyTrie.Model.HexRead
+import PyTrie.Model.IterRaw
 /-! Line-protocol front end for the hexary-trie model (commands `hx.*`). One reply line per
     command. Byte strings are lower-case hex (`-` = empty), nibble paths one hex digit per nibble
     (`-` = empty), the batch trie is addressed as `b`, other tries by number. -/
@@ -288,6 +289,19 @@ def step (st : St) (cmd : String) (args : List String) : St × String :=
           | .ok l => joinOr (l.map fun n => toHex (rlp n)) ","
           | .error _ => "exn Missing")
     | _, _ => bad
+  -- raw level of NodeIterator.next: _get_key_after / _get_next_key over annotated raw nodes and the database
+  | "nextd", [r, k] =>
+    match ofHex r with
+    | some r =>
+      let key? : Option (Option Bytes) := if k = "none" then some none else (ofHex k).map some
+      match key? with
+      | none => bad
+      | some key =>
+        (st, match HexD.nextD keccak w.base r key with
+          | .ok (some p) => s!"k {pathStr p}"
+          | .ok none => "None"
+          | .error _ => "exn")
+    | none => bad
   | "rlpdec", [b] =>
     match ofHex b with
     | some b => (st, match HexD.rlpDecode b with | some it => toHex (rlp it) | none => "none")
